@@ -884,7 +884,7 @@ def oracle(ctx: Ctx, deep: bool = False):
     """The property stated directly on the implementation (independent numpy/torch reference)."""
     rng = ctx.rng
     # -- the generalised case space: dataset kind x slice_no x entry point x sampler x crop x output layout x history
-    ng = 600 if deep else ctx.budget(160, 1500)
+    ng = 600 if deep else ctx.budget(240, 1500)
     nwk = 6 if deep else ctx.budget(3, 16)
     for c in range(ng):
         case = cases.random_case(rng, "slice_no" if c % 4 == 0 else None)
